@@ -198,6 +198,8 @@ def build_class(prog):
                         for f, k in oc[2]:              # the other way of registering, one call per item: a key may be used
                             self.to_context(**{f'k{k}': self._futs[f]})     # for SEVERAL items (a pure "wait for all")
                         return None
+                    if i % 2 == 1:      # a context assignment is a mapping of keys to awaitables: a plain dict is one (ToContext = dict)
+                        return {f'k{k}': self._futs[f] for f, k in oc[2]}
                     return plumpy.ToContext(**{f'k{k}': self._futs[f] for f, k in oc[2]})
                 if oc[0] == 'raise':
                     self._raised.append((oc[1], self.has_terminated()))
